@@ -206,3 +206,27 @@ Proof.
   destruct Hin as [<-|[<-|[<-|[]]]]; cbn -[put_le16 u16]; intros H; injection H as <-;
     unfold id_field, seq_field; cbn; split; reflexivity.
 Qed.
+
+(* the same at the level of requests: a request that cannot be serialised sends nothing and leaves the counter alone *)
+Theorem session_send_seq s o lun r : forall script seq ivs,
+  s_remote_id s < 4294967296 -> seq + N.of_nat (length script) < 4294967296 ->
+  let res := session_send s seq ivs o lun r script in
+  map seq_field (lr_sent res) = count_from (seq + 1) (length (lr_sent res)) /\
+  Forall (fun dg => id_field dg = s_remote_id s) (lr_sent res) /\
+  lr_seq res = seq + N.of_nat (length (lr_sent res)) /\ (length (lr_sent res) <= length script)%nat.
+Proof.
+  intros script seq ivs Hid Hb. cbn zeta. unfold session_send.
+  destruct (ser_request r []) as [body| |].
+  - destruct (session_loop_seq s o lun body script seq ivs [] [] Hid Hb) as [new [E1 [E2 [E3 [E4 E5]]]]].
+    cbn [app] in E1. rewrite E1. auto.
+  - cbn [lr_sent lr_seq map length count_from]. rewrite N.add_0_r. repeat split; auto. lia.
+  - cbn [lr_sent lr_seq map length count_from]. rewrite N.add_0_r. repeat split; auto. lia.
+Qed.
+
+Theorem session_send_refused s o lun r script seq ivs :
+  (forall body, ser_request r [] <> Ok body) ->
+  lr_sent (session_send s seq ivs o lun r script) = [] /\ lr_seq (session_send s seq ivs o lun r script) = seq /\
+  lr_outcome (session_send s seq ivs o lun r script) = OSerialize.
+Proof.
+  intros H. unfold session_send. destruct (ser_request r []) as [body| |]; [exfalso; apply (H body); reflexivity| |]; auto.
+Qed.
